@@ -21,6 +21,7 @@ type c07Req struct {
 	Kind     string `json:"kind"` // pub1 pub2 sub unsub
 	NFilters int    `json:"nFilters,omitempty"`
 	Codes    []int  `json:"codes,omitempty"`    // SUBACK return codes the broker will send
+	RepeatAt int    `json:"repeatAt,omitempty"` // > 0: the filter at this position repeats the first filter of the same call (legal; the codes stay positional)
 	WrongLen int    `json:"wrongLen,omitempty"` // != 0: the SUBACK carries len(filters)+WrongLen codes
 	Cancel   bool   `json:"cancel,omitempty"`   // the caller gives up (context cancelled) before any answer; the answers still arrive, late
 	// CancelWithRec (pub2 only): PUBREC is sent and the caller's context is cancelled at the same moment. Whatever the
@@ -87,6 +88,9 @@ func c07Gen(rt *rapid.T) c07Case {
 			q.NFilters = rapid.IntRange(1, 4).Draw(rt, "nf")
 			for i := 0; i < q.NFilters; i++ {
 				q.Codes = append(q.Codes, rapid.SampledFrom([]int{0, 1, 2, 0x80}).Draw(rt, "code"))
+			}
+			if q.NFilters >= 2 && rapid.IntRange(0, 3).Draw(rt, "repeat") == 0 {
+				q.RepeatAt = rapid.IntRange(1, q.NFilters-1).Draw(rt, "repeatAt")
 			}
 		}
 		q.Cancel = rapid.IntRange(0, 5).Draw(rt, "cancel") == 0
@@ -244,6 +248,10 @@ func c07Run(tb rapid.TB, c c07Case) {
 			case "sub":
 				req := []Subscription{{Topic: tag, QoS: QoS2}}
 				for k := 1; k < q.NFilters; k++ {
+					if k == q.RepeatAt {
+						req = append(req, Subscription{Topic: tag, QoS: QoS(k % 3)})
+						continue
+					}
 					req = append(req, Subscription{Topic: fmt.Sprintf("%s/f%d", tag, k), QoS: QoS(k % 3)})
 				}
 				subs, err = r.cli.Subscribe(rctx[i], req...)
@@ -534,7 +542,7 @@ func c07Run(tb rapid.TB, c c07Case) {
 			}
 			for k, sub := range s.subs {
 				wantTopic := fmt.Sprintf("r/%d", i)
-				if k > 0 {
+				if k > 0 && k != q.RepeatAt {
 					wantTopic = fmt.Sprintf("r/%d/f%d", i, k)
 				}
 				if sub.Topic != wantTopic || int(sub.QoS) != q.Codes[k] {
